@@ -490,7 +490,17 @@ func (r *Run) Finish() int {
 			outcomes[c.Name+"/"+o] = struct{}{}
 		}
 		if c.Rule != "" {
-			rules = append(rules, c.Name+": "+c.Rule)
+			merged := false
+			for i := range rules {
+				if strings.HasSuffix(rules[i], ": "+c.Rule) {
+					rules[i] = c.Name + ", " + rules[i]
+					merged = true
+					break
+				}
+			}
+			if !merged {
+				rules = append(rules, c.Name+": "+c.Rule)
+			}
 		}
 	}
 	cov := map[string]any{
